@@ -35,9 +35,15 @@ class Pool:
         env = dict(os.environ)
         env["PYTHONPATH"] = os.environ.get("GWF_VERIF_SRC", "/repo/src")
         os.makedirs(os.path.join(workdir, ".gwf", "logs"), exist_ok=True)
-        code = ("import sys; from gwf.backends.local import start_cluster; "
-                f"start_cluster({workdir!r}, {int(cores)}, '127.0.0.1', {self.port})")
-        self.proc = subprocess.Popen([PY, "-c", code], cwd=workdir, env=env, stdout=subprocess.DEVNULL,
+        # the documented way to start a pool: `gwf -b local workers -n <cores> -p <port> -h <host>` in the project
+        if os.path.exists(os.path.join(workdir, "workflow.py")):
+            cmd = [PY, "-c", "from gwf.cli import main; main()", "-b", "local", "workers", "-n", str(int(cores)),
+                   "-p", str(self.port), "-h", "127.0.0.1"]
+        else:
+            code = ("from gwf.backends.local import start_cluster; "
+                    f"start_cluster({workdir!r}, {int(cores)}, '127.0.0.1', {self.port})")
+            cmd = [PY, "-c", code]
+        self.proc = subprocess.Popen(cmd, cwd=workdir, env=env, stdout=subprocess.DEVNULL,
                                      stderr=subprocess.DEVNULL, start_new_session=True)
         deadline = time.monotonic() + 20
         while time.monotonic() < deadline:
